@@ -15,7 +15,7 @@ func init() {
 	register("C15", &propDef{
 		Title:           "Unpack materialises exactly what a well-formed archive says",
 		ConfigSensitive: true,
-		Rules:           []func(*Checker){ruleGate("C15.gate"), ruleC15Deferred, ruleC15Truncate, ruleMaterialise("C15.materialise"), ruleRestore("C15.restore"), ruleMeta("C15.meta"), ruleC01NoFollowAs("C15.lastwins"), ruleC15XHeader},
+		Rules:           []func(*Checker){ruleGate("C15.gate"), ruleC15Deferred, ruleC15Truncate, ruleMaterialise("C15.materialise"), ruleRestore("C15.restore"), ruleMeta("C15.meta"), ruleC01NoFollowAs("C15.lastwins"), ruleC15XHeader, aliasRule(ruleC01Replace, "C01.replace", "C15.replace", 1)},
 		NotDecided: []string{
 			"the resulting tree for a given entry sequence (run-time fact)",
 			"the effect of the permission-retry branch (needs non-root execution)",
@@ -461,6 +461,42 @@ func ruleRestore(id string) func(*Checker) {
 					}
 				}
 			}
+			// nothing is materialised once directories have their final mode and times: creating, linking or
+			// removing an entry in a directory changes that directory's modification time (and a mode
+			// without write permission would make it fail)
+			after := map[*ssa.BasicBlock]bool{}
+			{
+				work := []*ssa.BasicBlock{b}
+				after[b] = true
+				for len(work) > 0 {
+					x := work[len(work)-1]
+					work = work[:len(work)-1]
+					for _, sc := range x.Succs {
+						if !after[sc] {
+							after[sc] = true
+							work = append(work, sc)
+						}
+					}
+				}
+			}
+			late := ""
+			latePos := pos
+			for _, v := range u.VCalls {
+				site, ok := v.Site.(*ssa.Call)
+				if !ok || !after[site.Block()] {
+					continue
+				}
+				cls, sk := classifyFS(calleeObj(v.Inner))
+				if cls != "sink" {
+					continue
+				}
+				switch sk.Class {
+				case "mkdir", "create", "symlink", "link", "rename", "remove", "write", "temp":
+					late = shortCallee(fullName(calleeObj(v.Inner)))
+					latePos = p.Pos(v.Inner.Pos())
+				}
+			}
+			c.check(late == "", id, uname, "nothing materialised after the deferred restore", latePos, "no creating, linking, renaming or removing call can run once the directories have their recorded mode and times", late+" can run after the deferred directory restore: the directory it touches gets the time of unpacking instead of its recorded modification time (or, read-only, refuses the change)")
 			c.check(asc, id, uname, "deferred restore in archive order", pos, "the deferred list is visited front to back, so for a directory named twice the last entry's mode and times win", "the deferred list is not visited in archive order: for a path that appears in several directory entries an earlier entry's mode/times are applied last")
 			okE, errE := okEdgesOfCall(cl)
 			_ = okE
